@@ -231,6 +231,22 @@ def _r2(w: World, rep: Report, eff: Effects):
                 rep.check('C19.R2', f'{fi.key}|registry-aliased', False, line=n.lineno, file=w.repo.rel(fi.module.path),
                           why=f'{leak}: the process-global registry itself (not a copy) is attached to a run object, so '
                           f'anything a run stores through that object changes later runs')
+    # registry entries are separate objects: one mutable object stored under several keys / slots makes a
+    # write through one entry visible in the others
+    nshared = 0
+    for mn in ('functions', 'parsing', 'tools', 'classes'):
+        m = w.repo.modules.get(mn)
+        if m is None:
+            continue
+        for n in ast.walk(m.tree):
+            hit = _shared_value_initialiser(n)
+            nshared += 1 if isinstance(n, (ast.Dict, ast.DictComp)) else 0
+            if hit:
+                rep.check('C19.R2', f'{mn}|shared-entry-object|{hit[0]}', False, line=n.lineno, file=w.repo.rel(m.path),
+                          why=f'{hit[1]}: every key/slot holds the *same* mutable object, so adding to or resetting one '
+                          f'entry (e.g. one plugin scope) changes the others')
+    rep.check('C19.R2', 'package|registry-entries-are-separate-objects', True, trivial=True,
+              facts={'container_expressions_examined': nshared})
     # reachability from the entry points
     for mod, name in ENTRY_POINTS:
         fi = w.repo.func(mod, name)
@@ -268,6 +284,26 @@ def _r2(w: World, rep: Report, eff: Effects):
                 ok = wr.op in ('clear',) and key.split('.')[-1].startswith('reset_')
                 why = '' if ok else f'registry mutated with .{wr.op}()'
             rep.check('C19.R2s', f'{key}|{wr.op}@{wr.path}', ok, line=wr.line, file=w.repo.rel(fi.module.path), why=why)
+
+
+def _is_mutable_display(e: ast.AST) -> bool:
+    if isinstance(e, (ast.List, ast.Dict, ast.Set, ast.ListComp, ast.DictComp, ast.SetComp)):
+        return True
+    return isinstance(e, ast.Call) and isinstance(e.func, ast.Name) and e.func.id in ('list', 'dict', 'set', 'deque',
+                                                                                      'bytearray', 'defaultdict')
+
+
+def _shared_value_initialiser(n: ast.AST):
+    """`dict.fromkeys(keys, <mutable>)`, `[<mutable>] * k`, `{k: shared for k in ...}` with one object built outside."""
+    if isinstance(n, ast.Call) and dotted(n.func) in ('dict.fromkeys',) or \
+            (isinstance(n, ast.Call) and isinstance(n.func, ast.Attribute) and n.func.attr == 'fromkeys'):
+        if len(n.args) >= 2 and _is_mutable_display(n.args[1]):
+            return ('fromkeys', f'`{ast.unparse(n)[:80]}`')
+    if isinstance(n, ast.BinOp) and isinstance(n.op, ast.Mult):
+        for side in (n.left, n.right):
+            if isinstance(side, (ast.List, ast.Tuple)) and any(_is_mutable_display(x) for x in side.elts):
+                return ('sequence-repeat', f'`{ast.unparse(n)[:80]}`')
+    return None
 
 
 def _reachable(w: World, eff: Effects, fi) -> set[str]:
